@@ -346,7 +346,7 @@ func init() {
 		ID:        "C08",
 		Title:     "Posting lists decode to exactly the IDs encoded",
 		Technique: "reference-list monitor: encode with PostingList.Fill/Marshal, compare full iteration, every Advance landing and the tail after it with the input list",
-		Rule: "case = strictly increasing ID list over 0-5 (type,namespace) groups (lengths 0..3000, varint widths 1..10, values up to 2^64-1, namespace table filled in shuffled order) " +
+		Rule: "case = strictly increasing ID list over 0-5 (type,namespace) groups (lengths 0..3000, varint widths 1..10, values up to 2^64-1, namespace table filled in shuffled order, one in four refilled after serving another set; groups ending on a full block and groups starting on the previous group's last value) " +
 			"plus a set of (prefix Nexts, Advance target, tail length[, second target]) probes; distinct = distinct (list, probes); " +
 			"non-trivial = the list spans >= 2 blocks or >= 2 groups and at least one Advance probe ran",
 		Assumptions: []string{
